@@ -84,10 +84,42 @@ class RatEval:
         return self.atom_of(n)
 
 
+def refuted(expr):
+    """Cheap, sound refutation: the expression (a polynomial / radical form in independent positive symbols) is
+    NOT identically zero if it is non-zero at some point.  Two fixed pseudo-random rational points, 40 digits.
+    Only ever used to answer 'not proven' quickly; a proof still needs the normal form."""
+    import random
+    try:
+        syms = sorted(expr.free_symbols, key=str)
+        rnd = random.Random(20260926)
+        terms = list(expr.args) if expr.is_Add else [expr]
+        for _ in range(2):
+            vals = {x: sympy.Rational(rnd.randint(3, 89), rnd.randint(3, 89)) for x in syms}
+            tv = [t.subs(vals) for t in terms]
+            if all(v.is_Rational for v in tv):
+                if sum(tv) != 0:                      # exact rational arithmetic
+                    return True
+                continue
+            tv = [sympy.N(v, 50) for v in tv]         # radicals: 50 significant digits
+            tot = sum(tv)
+            scale = sum(abs(v) for v in tv)
+            if scale == 0:
+                continue
+            if abs(tot) > sympy.Float('1e-30') * scale:
+                return True
+        return False
+    except Exception:
+        return False
+
+
 def is_zero(expr):
+    if refuted(expr):
+        return False
     # fast path: numerator of the combined fraction expands to the zero polynomial
     try:
         num0 = sympy.fraction(sympy.together(expr))[0]
+        if sympy.count_ops(num0) > 6000:
+            return False        # not proven (bounded effort: a product of many large sums)
         if sympy.expand(num0) == 0:
             return True
     except Exception:
@@ -119,6 +151,8 @@ class NFSym:
         self.syms = {}
         self.memo = {}
         self.units = set()      # symbols standing for sign(x): s**2 == 1
+        self.ambiguous = []     # powers whose sign decomposition was not determined
+        self.orient = None      # optional callable: sympy polynomial factor -> -1 if it is negative on the domain
 
     def sym(self, key):
         if key not in self.syms:
@@ -177,7 +211,13 @@ class NFSym:
         base = self.atom(k)
         try:
             quo, rem = e.numer.div(e.denom)
-            dtxt = str(e.denom)
+            # primitive denominator: 1/(4b+10) and 1/(2b+5) are the same exponent shape (coefficient 1/2, 1)
+            dcont = e.denom.content()
+            if e.denom.LC < 0:
+                dcont = -dcont
+            dprim = e.denom.quo_ground(dcont) if dcont != 1 else e.denom
+            dtxt = str(dprim)
+            dscale = sympy.Rational(int(dcont.numerator), int(dcont.denominator)) if hasattr(dcont, 'numerator') else sympy.Rational(int(dcont))
             parts = []          # (rational coefficient, shape key or None for a plain rational power)
             for poly, den in ((quo, '1'), (rem, dtxt)):
                 if poly == 0:
@@ -191,7 +231,7 @@ class NFSym:
                         c = c / sympy.Rational(int(d0.numerator), int(d0.denominator))
                         parts.append((c, None) if not any(monom) else (c, '%s/1' % (monom,)))
                     else:
-                        parts.append((c, '%s/%s' % (monom, den)))
+                        parts.append((c / dscale, '%s/%s' % (monom, den)))
         except Exception:
             return self.sym('%s^(%s)' % (k, e))
         factors = []            # (sympy expr of an irreducible factor or a number, multiplicity incl. sign)
@@ -204,12 +244,34 @@ class NFSym:
                 factors.append((poly, sign))
                 continue
             cont, fl = sympy.factor_list(poly)
-            if cont != 1:
+            fl = [(sympy.expand(f), m) for f, m in fl]
+            if self.orient is not None:
+                # orient every irreducible factor so that it is positive on the declared domain
+                for i, (f, m) in enumerate(fl):
+                    if not f.is_Symbol and self.orient(f) < 0:
+                        fl[i] = (sympy.expand(-f), m)
+                        cont = cont * (-1) ** m
                 if cont.is_number and cont < 0:
+                    self.ambiguous.append('negative base under a parameter-dependent power: %s' % k[:60])
                     return self.sym('%s^(%s)' % (k, e))
+            if cont.is_number and cont < 0:
+                # the base of a real power is positive: move the sign into one factor of odd multiplicity
+                # (preferably one that contains a point / time variable, e.g. t - 1 -> 1 - t)
+                odd = [i for i, (f, m) in enumerate(fl) if m % 2 == 1 and not f.is_Symbol]
+                if len(odd) != 1:
+                    # which factor carries the sign is not determined by the expression: the decomposition
+                    # would be arbitrary.  Remember that an identity involving this power may go unproven.
+                    self.ambiguous.append('%s^(%s)' % (k[:60], e))
+                if not odd:
+                    return self.sym('%s^(%s)' % (k, e))
+                inputs = {v for kk, v in self.syms.items() if kk.startswith('input:')}
+                pick = next((i for i in odd if fl[i][0].free_symbols & inputs), odd[0])
+                fl[pick] = (sympy.expand(-fl[pick][0]), fl[pick][1])
+                cont = -cont
+            if cont != 1:
                 factors.append((cont, sign))
             for f, m in fl:
-                factors.append((sympy.expand(f), sign * m))
+                factors.append((f, sign * m))
         out = sympy.Integer(1)
         for c, shape in parts:
             if shape is None:
